@@ -104,6 +104,12 @@ EXPORT errno_t _strcpyfldout_s_chk(char *dest, rsize_t dmax, const char *src,
     }
     CHK_SRC_NULL_CLEAR("strcpyfldout_s", src)
     CHK_SLEN_MAX_NOSPC_CLEAR("strcpyfldout_s", slen, RSIZE_MAX_STR)
+    /* the whole field is written (copy plus null fill): a source that
+       starts inside it would be overwritten */
+    if (unlikely(src >= dest && src < dest + dmax)) {
+        handle_error(dest, dmax, "strcpyfldout_s: overlapping objects", ESOVRLP);
+        return (ESOVRLP);
+    }
 
     /* hold base of dest in case src was not copied */
     orig_dmax = dmax;
